@@ -181,3 +181,11 @@ Theorem C18_lookup : forall root id a ty,
   In (id, a) out -> leaf_admits root id ty ->
   apropos (map render_port root) a = AFound id.
 Proof. exact walk_lookup_names. Qed.
+
+(* observation, outside the quantifier (names are non-empty): an empty port name
+   makes the unique-prefix pass read one byte before the name *)
+Theorem C18_empty_name_observation :
+  path_search [Port [] None None; Port [98] None None] [] [] SortedUniquePrefix = SOob /\
+  path_search [Port [] None None; Port [98] None None] [] [] Sorted =
+    SOk [{| e_name := Some []; e_data := None; e_len := 0 |}; {| e_name := Some [98]; e_data := None; e_len := 0 |}].
+Proof. exact empty_name_reads_before. Qed.
